@@ -66,6 +66,7 @@ def run_scenario(case, sched=None, monitor_records=None):
         for k, pr in enumerate(case["pairs"]):
             a = rr.built.values[pr["src"]]
             ti = S.materialise_target(pr["target"], a, shadow.values[pr["src"]], rr.sim, k)
+            ti.exact, ti.lowprec = shadow.exact[pr["src"]], shadow.lowprec[pr["src"]]
             infos.append(ti)
             sources.append(a)
         st = H.ExecState()
@@ -158,7 +159,7 @@ def execute(case, sched=None):
                                        n_pairs=len(infos), repeated=_repeated(case),
                                        shared_ancestry=out.get("shared_ancestry")))
                 continue
-            d = G.compare(np.asarray(got), ti.expected, exact=True)
+            d = G.compare(np.asarray(got), ti.expected, exact=ti.exact, lowprec=ti.lowprec)
             if d is not None:
                 outside = None
                 if ti.region is not None and got.shape == ti.expected.shape:
